@@ -79,6 +79,7 @@ structure DState where
   ldata   : List (String × List (List Rat)) := []
   lcoef   : List (String × Int) := []
   polys   : List (String × List (Rat × List Nat)) := []
+  sg      : SGrid := { kpl := 2 }
 
 def stepIdx (st : DState) (cmd : String) (args : List String) : DState × String :=
   match cmd, args with
@@ -257,6 +258,36 @@ def stepPoly (st : DState) (cmd : String) (args : List String) : DState × Strin
       | _, _, _, _ => (st, "bad-op")
   | _, _ => (st, "bad-op")
 
+/-- "alpha:beta" with "-" for an empty part -/
+def parsePair? (s : String) : Option (Idx × Idx) :=
+  match s.splitOn ":" with
+  | [a, b] => do
+      let ai ← parseIdx? a
+      let bi ← parseIdx? b
+      some (ai, bi)
+  | _ => none
+
+def showKey (k : EvalKey) : String := showIdx k.1 ++ ":" ++ showIdx k.2
+
+def keyLt (a b : EvalKey) : Bool := lexLt a.1 b.1 || (a.1 == b.1 && lexLt a.2 b.2)
+
+def stepSg (st : DState) (cmd : String) (args : List String) : DState × String :=
+  match cmd, args with
+  | "sg.init", [k] =>
+      match k.toNat? with
+      | some kk => ({ st with sg := { kpl := kk } }, "ok")
+      | none => (st, "bad-op")
+  -- sg.batch a:b a:b ...   (alpha : data part of beta) — prints the evaluated keys (sorted) | grid lengths
+  | "sg.batch", pairs =>
+      match pairs.mapM parsePair? with
+      | some batch =>
+          let (g, ev) := activateBatch st.sg batch
+          ({ st with sg := g }, ";".intercalate ((sortBy keyLt ev).map showKey) ++ " | " ++
+            " ".intercalate (g.gridLen.map toString))
+      | none => (st, "bad-op")
+  | "sg.stored", [] => (st, ";".intercalate ((sortBy keyLt st.sg.stored).map showKey))
+  | _, _ => (st, "bad-op")
+
 def step (st : DState) (line : String) : DState × String :=
   match (line.trimAscii.toString.splitOn " ").filter (· ≠ "") with
   | [] => (st, "")
@@ -264,6 +295,7 @@ def step (st : DState) (line : String) : DState × String :=
       if cmd.startsWith "idx." then stepIdx st cmd args
       else if cmd.startsWith "itp." then stepItp st cmd args
       else if cmd.startsWith "poly." then stepPoly st cmd args
+      else if cmd.startsWith "sg." then stepSg st cmd args
       else (st, "bad-op")
 
 partial def loop (h : IO.FS.Stream) (out : IO.FS.Stream) (st : DState) : IO Unit := do
